@@ -117,6 +117,8 @@ fn main() {
             facts!(18, DMock::p_arc);
             facts!(19, DMock::p_pin);
             facts!(20, DMock::m_mut);
+            facts!(23, DMock::r_rc);
+            facts!(24, DMock::p_rc2);
             writeln!(out, "--").unwrap();
             out.flush().unwrap();
             continue;
